@@ -63,7 +63,8 @@ RULE = (
     "conversions s d r f x e and width, escapes, control characters, "
     "positional placeholders) for the four styles, with and without "
     "arbitrary-fields) followed by a history of <=6 operations {call-factory, "
-    "reopen-all, reopen(i), close-all, drop(i), gc, emit, advance}.  "
+    "reopen-all, reopen(i), close-all, drop(i), gc, emit, advance, "
+    "close-all with ENOSPC on one handler's flush}.  "
     "Non-trivial: the load was accepted and at least one factory was called "
     "(or the load was rejected for a modelled reason); distinct = distinct "
     "sha256 of (configuration text, operations).")
@@ -604,8 +605,8 @@ def generate(rng, tier, index):
     for k_op in range(rng.randint(1, 6)):
         kind = rng.choices(
             ["call", "emit", "reopen-all", "reopen", "close-all", "drop",
-             "gc", "advance"],
-            [30, 20, 12, 8, 8, 10, 5, 7])[0]
+             "gc", "advance", "close-all-fault"],
+            [30, 20, 12, 8, 8, 10, 5, 7, 4])[0]
         if k_op == 0 and rng.random() < 0.8:
             kind = "call"
         if kind in ("call", "reopen", "drop"):
@@ -621,9 +622,20 @@ def generate(rng, tier, index):
             history.append({"op": "advance",
                             "dt": rng.choice([1.0, 61.0, 3601.0, 86401.0,
                                               700000.0])})
+        elif kind == "close-all-fault":
+            history.append({"op": kind, "j": rng.randrange(8)})
         else:
             history.append({"op": kind})
-    if nl >= 2 and rng.random() < 0.2:
+    if nl >= 2 and rng.random() < 0.08:
+        # scripted skeleton: every logger instantiated, then closeFiles()
+        # while the disk is full for ONE of the handlers (its flush raises),
+        # then the registry is used again
+        history = [{"op": "call", "i": i} for i in range(nl)]
+        history.append({"op": "close-all-fault", "j": rng.randrange(8)})
+        history.append({"op": rng.choice(["reopen-all", "close-all",
+                                          "close-all"])})
+        history = history[:6]
+    elif nl >= 2 and rng.random() < 0.2:
         # scripted skeleton: several loggers instantiated, one of the earlier
         # ones dropped (and collected), then the registry is used
         order = list(range(nl))
@@ -1232,6 +1244,44 @@ def _execute(plan, out, scratch, w, clock, recs):
             out["fired"]["close-all"] = out["fired"].get("close-all", 0) + 1
             if live:
                 probe("close-all-with-live-handlers")
+        elif kind == "close-all-fault":
+            # fault injection: the disk is full for one registered handler
+            # (its flush raises ENOSPC once) while closeFiles() runs.  The
+            # call may fail; afterwards every handler the component created
+            # is either closed, or still open AND still known to the
+            # registry (checked by check_registry below and by every later
+            # reopen-all / close-all)
+            cand = [hh for hh in (wr() for wr in
+                                  loghandler._reopenable_handlers)
+                    if hh is not None and hh.stream is not None]
+            if cand:
+                victim = cand[op["j"] % len(cand)]
+
+                def _enospc():
+                    raise OSError(28, "No space left on device (injected)")
+                victim.flush = _enospc
+                try:
+                    loghandler.closeFiles()
+                    probe("close-fault-not-reached")
+                except OSError:
+                    out["fired"]["close-enospc"] = out["fired"].get(
+                        "close-enospc", 0) + 1
+                except Exception as e:
+                    violation("close-all", "raised", "closeFiles() with a "
+                              "full disk raised %s"
+                              % ops.brief(ops.failure(e)), step)
+                finally:
+                    try:
+                        del victim.flush
+                    except AttributeError:
+                        pass
+                del victim
+                for r in recs:
+                    hh = r.ref()
+                    if hh is not None and getattr(hh, "_closed", False):
+                        r.closed = True
+                    del hh
+            del cand
         elif kind == "drop":
             i = op["i"]
             lg = plan["loggers"][i]
